@@ -263,3 +263,22 @@ int alloc_infeasible_good(int n) {
     free(a);
     return 0;
 }
+
+/* ---- R24 narrow-guard: a bounds guard is not computed in fewer bits than the bound */
+static uint32_t ctl_le32(const uint8_t* p) { return (uint32_t)p[0] | ((uint32_t)p[1] << 8) | ((uint32_t)p[2] << 16) | ((uint32_t)p[3] << 24); }
+long narrow_guard_bad(const uint8_t* in, size_t in_size) {
+    if (in_size < 4) return -1;
+    uint32_t len = ctl_le32(in);
+    if (4 + len > in_size) return -1;           /* 4 + len wraps in 32 bits */
+    return (long)in[4 + len - 1];
+}
+long narrow_guard_good(const uint8_t* in, size_t in_size) {
+    if (in_size < 4) return -1;
+    uint32_t len = ctl_le32(in);
+    if (len > in_size - 4) return -1;
+    uint8_t w = in[3];
+    if (w + 7u > in_size) return -1;            /* narrow operand: cannot wrap */
+    if (len > 1000) return -1;
+    if (len + 16 > in_size) return -1;          /* tested on every path */
+    return (long)in[4 + len - 1];
+}
